@@ -77,7 +77,8 @@ class Repeater:
             True if the attr was found and deleted, False if it was undefined
         """
         rtn: bool = key in self.__attrs.keys()
-        del self.__attrs[key]
+        if rtn:
+            del self.__attrs[key]
         return rtn
 
     def repeater_target_address(self) -> ADDRESS_TYPE:
@@ -103,6 +104,9 @@ class Repeater:
         """
 
         for key, value in patch.items():
+            if key == "id":
+                # identity of the Repeater is generated once and storage is keyed by it
+                continue
             if hasattr(self, key):
                 setattr(self, key, value)
             elif value is not None:
